@@ -229,6 +229,10 @@ type interruptPanic struct {
 
 // runInterrupt calls a function received on the Interrupt channel.
 func runInterrupt(function func()) {
+	if function == nil {
+		// A closed Interrupt channel (or a nil sent on it) yields nil: nothing to run.
+		return
+	}
 	defer func() {
 		if caught := recover(); caught != nil {
 			panic(interruptPanic{caught})
